@@ -26,7 +26,6 @@ where
     Init,
     Seek(Inflater<R>),
     Finish(TryBuffered<Inflater<R>>),
-    Done(VirtualPosition),
 }
 
 pin_project! {
@@ -248,15 +247,10 @@ where
 
                     self.stream.replace(stream);
 
-                    Some(SeekState::Done(pos))
-                }
-                SeekState::Done(p) => {
-                    if pos == p {
-                        self.seek_state = Some(SeekState::Done(pos));
-                        return Poll::Ready(Ok(pos));
-                    } else {
-                        Some(SeekState::Init)
-                    }
+                    // The next call is a new seek, even if it is to the same position.
+                    self.seek_state = Some(SeekState::Init);
+
+                    return Poll::Ready(Ok(pos));
                 }
             };
         }
